@@ -75,3 +75,18 @@ def use_real_pool() -> None:
 def quiet():
     with contextlib.redirect_stdout(io.StringIO()):
         yield
+
+
+@contextlib.contextmanager
+def mem_limit(gb: float = 6.0):
+    """Lower the soft address-space limit while the real code runs, so that an allocation
+    proportional to a label VALUE (not to the array size) surfaces as MemoryError in the code
+    under test - an observation - instead of exhausting the machine.  Restored afterwards
+    (the TLC subprocess needs the full address space)."""
+    import resource
+    soft, hard = resource.getrlimit(resource.RLIMIT_AS)
+    try:
+        resource.setrlimit(resource.RLIMIT_AS, (int(gb * 2**30), hard))
+        yield
+    finally:
+        resource.setrlimit(resource.RLIMIT_AS, (soft, hard))
